@@ -463,3 +463,15 @@ def run(facts, rep, ctx):
     gd4(facts, rep)
     ts6(facts, rep)
     po3(facts, rep)
+
+
+_run_before_round4b = run
+
+
+def run(facts, rep, ctx):
+    """further rules added after the third seeding round (rules/round4.py)"""
+    _run_before_round4b(facts, rep, ctx)
+    from . import round4
+    round4.or2(facts, rep)
+    round4.ri7(facts, rep)
+
